@@ -1,7 +1,7 @@
 (* C13 — proofs about what the driver evaluates on the mutate stream. *)
 From Coq Require Import String List ZArith Bool Lia.
 From Verif Require Import Lib.Wire Gen.Gen_consts Gen.Gen_funcs
-  C13.Model C13.Spec C13.Codec C13.Check C13.Proofs C13.Proofs_mutate.
+  C13.Model C13.Spec C13.Codec C13.Check C13.Proofs C13.Proofs_mutate C13.Proofs_codec.
 Import ListNotations.
 Open Scope Z_scope.
 
@@ -9,7 +9,7 @@ Definition pod_is (r : option pod) (p : pod) : Prop := r = Some p.
 
 (* prop_mutate without the wire codec of the observable: the same decision procedure
    (Spec.mutate_code, clauses 11/13, and clause 14) applied to the model's own pods *)
-Definition prop_mutate_core (inp : list Z) : Z :=
+Definition prop_mutate_core_body (inp : list Z) : Z :=
   let '(e, ps, p) := dec_mutate inp in
   match admit_pod e OP_CREATE ps p with
   | None => 0
@@ -22,13 +22,43 @@ Definition prop_mutate_core (inp : list Z) : Z :=
            end
   end.
 
+Definition prop_mutate_core (inp : list Z) : Z :=
+  match untag TAG_MUTATE inp with Some body => prop_mutate_core_body body | None => 0 end.
+
 Lemma eq_listZ_refl l : eq_listZ l l = true.
 Proof. induction l; cbn; [reflexivity|]. rewrite Z.eqb_refl. exact IHl. Qed.
 
 Lemma mutate_stream_core inp : prop_mutate_core inp = 0.
 Proof.
-  unfold prop_mutate_core. destruct (dec_mutate inp) as [[e ps] p].
+  unfold prop_mutate_core. destruct (untag TAG_MUTATE inp) as [body|]; [|reflexivity].
+  unfold prop_mutate_core_body. destruct (dec_mutate body) as [[e ps] p].
   destruct (admit_pod e OP_CREATE ps p) as [p1|] eqn:A; [|reflexivity].
   rewrite (create_code_zero KEYS e ps p p1 A). cbn [Z.eqb negb].
   rewrite (readmit_update e ps p p1 A), eq_listZ_refl. reflexivity.
 Qed.
+
+(* ------------------------------------------------------------------ objects for the non-vacuity Examples *)
+Definition ex_lsr_pod : pod :=
+  mkPod [(K_QOS, QoSLSR)] (Some PriorityProdValueMin) EmptyString []
+        [mkC false [(R_CPU, 2 * nano); (R_MEM, 4096 * nano)] [(R_CPU, 2 * nano)]] [] AnnAbsent.
+Definition ex_be_prod_pod : pod :=
+  mkPod [(K_QOS, QoSBE)] (Some PriorityProdValueMax) EmptyString []
+        [mkC false [(R_BCPU, 1000 * nano)] []] [] AnnAbsent.
+(* a BE pod with fractional CPU, a limit-only container and an init container *)
+Definition ex_batch_pod : pod :=
+  mkPod [(K_QOS, QoSBE)] None EmptyString
+        [mkC false [(R_CPU, 500000)] []]
+        [mkC false [(R_CPU, 1500 * 1000000); (R_MEM, 1024 * nano)] [(R_CPU, 2 * nano)];
+         mkC false [] [(R_MEM, 2048 * nano)]]
+        [(R_CPU, 100 * 1000000)] AnnAbsent.
+Definition ex_profile : profile :=
+  mkProf 1 SelNil SelAll None false [] [] [] EmptyString (PcValue PriorityBatchValueMin) None.
+Definition ex_env : env := mkEnv (Some []) 0 false false.
+Definition ex_batch_pod_admitted : pod :=
+  mkPod [(K_QOS, QoSBE)] (Some PriorityBatchValueMin) EmptyString
+        [mkC false [(R_BCPU, 1 * nano)] []]
+        [mkC false [(R_BMEM, 1024 * nano); (R_BCPU, 1500 * nano)] [(R_BCPU, 2000 * nano)];
+         mkC false [(R_BMEM, 2048 * nano)] [(R_BMEM, 2048 * nano)]]
+        [(R_BCPU, 100 * nano)]
+        (AnnSpec [(0, ((Some (1500 * nano), Some (1024 * nano)), (Some (2000 * nano), None)));
+                  (1, ((None, Some (2048 * nano)), (None, Some (2048 * nano))))]).
